@@ -24,6 +24,21 @@ STATUSES = [
     ('enum', 200, 200), ('enum', 204, 204), ('enum', 304, 304), ('enum', 100, 100), ('enum', 101, 101),
     ('enum', 418, 418), ('enum', 201, 201),
 ]
+# (C05, after seed C05_13) more of the status space for the random plans: the informational codes that are NOT 100 / 101, codes next to
+# 204 / 304, the ends of every class, codes beyond 599; 'code-prop' = assigned through resp.status_code; the exhaustive sweep is c05.status_sweep
+STATUSES_MORE = [
+    ('int', 102, 102), ('int', 103, 103), ('line', '102 Processing', 102), ('line', '103 Early Hints', 103), ('enum', 102, 102), ('enum', 103, 103),
+    ('int', 199, 199), ('int', 150, 150), ('line*', '150 Custom Informational', 150), ('line*', '199 Nearly', 199), ('code-str', '102', 102),
+    ('code-prop', 103, 103), ('code-prop', 204, 204), ('code-prop', 200, 200), ('code-prop', 101, 101),
+    ('int', 203, 203), ('int', 205, 205), ('enum', 205, 205), ('int', 206, 206), ('int', 303, 303), ('int', 305, 305), ('line*', '305 use proxy', 305),
+    ('int', 400, 400), ('int', 499, 499), ('int', 599, 599), ('int', 600, 600), ('int', 999, 999), ('line*', '999 Last', 999),
+]
+# (C05, after seed C05_15) the SHAPE of an iterable stream object - what its __iter__ / __aiter__ returns: None = the object itself (a
+# classic iterator); 'sep' = a separate iterator object without close(); 'sep_close' = a separate iterator object that has a close() of
+# its own (counted in Probe.iter_closed); 'genmethod' = __iter__ / __aiter__ is written as a (async) generator method.  Whether the
+# stream object itself has close() is the kind ('iter' / 'iter-noclose'), so close() exists on the iterable only, on the iterator only,
+# on both, on neither.  A file-like object may be iterable as well, like real files (`also_iter`).
+SHAPES = [None, 'sep', 'sep_close', 'genmethod']
 METHODS = ['GET', 'GET', 'HEAD', 'HEAD', 'POST', 'PUT', 'DELETE', 'PATCH', 'OPTIONS']
 MEDIA = {'dict': {'k': 'v', 'é': 1}, 'empty-dict': {}, 'zero': 0, 'str': 'm', 'list': [1, 'a'],
          # the other "falsy" JSON documents (C06 draws them; gen_plan itself keeps its original pool)
@@ -148,6 +163,9 @@ class Probe:
 
     def __init__(self, chunks, fail, reader=None, fail_class=None, close_class=None, cancel_at=None):
         self.chunks, self.fail, self.calls, self.closed, self.finalized = list(chunks), fail, 0, 0, 0
+        # closed counts close() on the object the application assigned to resp.stream; iter_closed counts close() on a SEPARATE
+        # iterator object its __iter__ / __aiter__ handed out (see SHAPES); iters = how often __iter__ / __aiter__ was called
+        self.iter_closed, self.iters = 0, 0
         # fail_class: what the failing call raises; close_class: close() itself raises that (after being counted);
         # cancel_at: ['call', i] / ['close'] - ASGI: the app task is cancelled while it is suspended in that call
         self.fail_class, self.close_class, self.cancel_at, self.truth_looks = fail_class, close_class, cancel_at, 0
@@ -212,7 +230,32 @@ def _looked(probe, value):
     return value
 
 
-def make_stream(kind, probe, truth=None):
+def _iter_closed_sync(probe):
+    probe.iter_closed += 1
+
+
+async def _iter_closed_async(probe):
+    probe.iter_closed += 1
+
+
+def _next_sync(probe, file_like=False):
+    c = probe.step()
+    if c is None or (file_like and c == b''):
+        raise StopIteration
+    return c
+
+
+async def _next_async(probe, file_like=False):
+    await _before_call(probe)
+    c = probe.step()
+    if c is None or (file_like and (c is NONE or c == b'')):
+        raise StopAsyncIteration
+    # "async iterators must return None instead of raising StopIteration" (falcon.asgi.Response.stream)
+    return None if c is NONE else c
+
+
+def make_stream(kind, probe, truth=None, shape=None, also_iter=False):
+    """shape (iterable kinds) / also_iter (file-like kinds): see SHAPES."""
     if kind in ('file', 'file-noclose'):
         class F:
             def read(self, n=-1):
@@ -220,18 +263,42 @@ def make_stream(kind, probe, truth=None):
                 return b'' if c is None else c
         if kind == 'file':
             F.close = lambda self: _closed_sync(probe)
+        if also_iter:
+            # like io.BufferedReader: a file-like object is iterable, too (the documentation makes read() the interface)
+            F.__iter__ = lambda self: _iters(probe, self)
+            F.__next__ = lambda self: _next_sync(probe, True)
         _truth(F, probe, truth)
         return F()
     if kind in ('iter', 'iter-noclose'):
-        class I:  # noqa: E742
-            def __iter__(self):
-                return self
+        if shape in ('sep', 'sep_close'):
+            class It:
+                def __iter__(self):
+                    return self
 
-            def __next__(self):
-                c = probe.step()
-                if c is None:
-                    raise StopIteration
-                return c
+                def __next__(self):
+                    return _next_sync(probe)
+            if shape == 'sep_close':
+                It.close = lambda self: _iter_closed_sync(probe)
+
+            class I:  # noqa: E742
+                def __iter__(self):
+                    return _iters(probe, It())
+        elif shape == 'genmethod':
+            class I:  # noqa: E742
+                def __iter__(self):
+                    probe.iters += 1
+                    while True:
+                        c = probe.step()
+                        if c is None:
+                            return
+                        yield c
+        else:
+            class I:  # noqa: E742
+                def __iter__(self):
+                    return _iters(probe, self)
+
+                def __next__(self):
+                    return _next_sync(probe)
         if kind == 'iter':
             I.close = lambda self: _closed_sync(probe)
         _truth(I, probe, truth)
@@ -259,20 +326,47 @@ def make_stream(kind, probe, truth=None):
             async def close(self):
                 await _closed_async(probe)
             AF.close = close
+        if also_iter:
+            async def anext_(self):
+                return await _next_async(probe, True)
+            AF.__aiter__ = lambda self: _iters(probe, self)
+            AF.__anext__ = anext_
         _truth(AF, probe, truth)
         return AF()
     if kind in ('aiter', 'aiter-noclose'):
-        class AI:
-            def __aiter__(self):
-                return self
+        if shape in ('sep', 'sep_close'):
+            class AIt:
+                def __aiter__(self):
+                    return self
 
-            async def __anext__(self):
-                await _before_call(probe)
-                c = probe.step()
-                if c is None:
-                    raise StopAsyncIteration
-                # "async iterators must return None instead of raising StopIteration" (falcon.asgi.Response.stream)
-                return None if c is NONE else c
+                async def __anext__(self):
+                    return await _next_async(probe)
+            if shape == 'sep_close':
+                async def iclose(self):
+                    await _iter_closed_async(probe)
+                AIt.close = iclose
+
+            class AI:
+                def __aiter__(self):
+                    return _iters(probe, AIt())
+        elif shape == 'genmethod':
+            class AI:
+                async def __aiter__(self):
+                    probe.iters += 1
+                    while True:
+                        await _before_call(probe)
+                        c = probe.step()
+                        if c is None:
+                            return
+                        # "one can simply yield None" to end the body (falcon.asgi.Response.stream)
+                        yield None if c is NONE else c
+        else:
+            class AI:
+                def __aiter__(self):
+                    return _iters(probe, self)
+
+                async def __anext__(self):
+                    return await _next_async(probe)
         if kind == 'aiter':
             async def close(self):
                 await _closed_async(probe)
@@ -292,6 +386,11 @@ def make_stream(kind, probe, truth=None):
                 probe.finalized += 1
         return ag()
     raise ValueError(kind)
+
+
+def _iters(probe, it):
+    probe.iters += 1
+    return it
 
 
 MEDIA_KINDS = ['dict', 'dict', 'empty-dict', 'zero', 'str', 'list', 'unserialisable']
@@ -329,8 +428,8 @@ def gen_hist(rnd, p):
     return ops
 
 
-def gen_plan(rnd, sse_ok=True, errors_ok=True, hist_ok=False, none_ok=False, obj_ok=False, framing_ok=False):
-    form, value, code = rnd.choice(STATUSES)
+def gen_plan(rnd, sse_ok=True, errors_ok=True, hist_ok=False, none_ok=False, obj_ok=False, framing_ok=False, more_statuses=False, shape_ok=False):
+    form, value, code = rnd.choice(STATUSES + STATUSES_MORE if more_statuses and rnd.random() < 0.3 else STATUSES)
     p = {'status_form': form, 'status': value, 'code': code, 'method': rnd.choice(METHODS)}
     srcs = rnd.sample(['text', 'data', 'media', 'stream'], rnd.choice([0, 1, 1, 1, 1, 2, 2, 3, 4]))
     p['text'] = rnd.choice(TEXTS) if 'text' in srcs else None
@@ -349,6 +448,8 @@ def gen_plan(rnd, sse_ok=True, errors_ok=True, hist_ok=False, none_ok=False, obj
         if obj_ok and kind != 'gen' and rnd.random() < 0.45:
             # the stream OBJECT: its truth value (a generator object cannot have one of its own) ...
             p['stream']['truth'] = rnd.choice(TRUTHS[1:])
+        if shape_ok:
+            gen_shape(rnd, p['stream'])
         if obj_ok and rnd.random() < 0.3:
             # ... and whether it is handed over with resp.set_stream(stream, content_length): the length its chunks really have
             # (what the documentation asks for), sometimes another one
@@ -390,6 +491,14 @@ def gen_plan(rnd, sse_ok=True, errors_ok=True, hist_ok=False, none_ok=False, obj
         if p['raise'] == 'status' and rnd.random() < 0.5:
             p['raise'] = 'status_body'
     return p
+
+
+def gen_shape(rnd, st):
+    """(C05) the shape of the stream object: see SHAPES"""
+    if st['kind'] in ('iter', 'iter-noclose') and rnd.random() < 0.6:
+        st['shape'] = rnd.choice(SHAPES[1:])
+    elif st['kind'] in ('file', 'file-noclose') and rnd.random() < 0.3:
+        st['also_iter'] = True
 
 
 def declared_length(st):
@@ -620,7 +729,10 @@ def fill(resp, p, asgi, snapshot=None):
     import falcon
     if p['raise'] and not p['raise_after_fill']:
         _raise(p)
-    resp.status = status_value(p)
+    if p['status_form'] == 'code-prop':
+        resp.status_code = p['status']
+    else:
+        resp.status = status_value(p)
     hist = p.get('hist')
     if hist is not None and hist_hdr_first(p):
         _fill_headers(resp, p)
@@ -655,7 +767,7 @@ def fill(resp, p, asgi, snapshot=None):
         probe = Probe(stream_items(p, asgi), st['fail'], st.get('reader'), st.get('fail_class'), st.get('close_class'),
                       st.get('cancel_at') if asgi else None)
         kind = st['kind']
-        stream = make_stream(ASYNC_OF[kind] if asgi else kind, probe, st.get('truth'))
+        stream = make_stream(ASYNC_OF[kind] if asgi else kind, probe, st.get('truth'), st.get('shape'), bool(st.get('also_iter')))
         if st.get('declared') is not None:
             resp.set_stream(stream, st['declared'])
         else:
